@@ -2,7 +2,8 @@
 //! NDJSON event recording, deterministic PRNG, panic capture.
 //!
 //! Number encoding (see spec/lib/Fx.tla): `[s, q, m1, m2, ...]` denotes
-//! `s * (m1 + m2*8192 + ...) * 8192^q`; specials are the strings "nan", "inf", "-inf".
+//! `s * (m1 + m2*8192 + ...) * 8192^q`; specials are `[2,0]` (NaN), `[3,0]` (+inf), `[-3,0]` (-inf) -
+//! arrays too, because TLC cannot compare a tuple with a string.
 
 use serde_json::{json, Value};
 use std::io::{BufWriter, Write};
@@ -35,10 +36,10 @@ pub fn ex_parts(neg: bool, mut mant: u128, mut exp2: i32) -> Value {
 
 pub fn ex64(x: f64) -> Value {
     if x.is_nan() {
-        return json!("nan");
+        return json!([2, 0]);
     }
     if x.is_infinite() {
-        return json!(if x > 0.0 { "inf" } else { "-inf" });
+        return json!(if x > 0.0 { [3, 0] } else { [-3, 0] });
     }
     let bits = x.to_bits();
     let neg = (bits >> 63) != 0;
